@@ -23,6 +23,8 @@ from typing import Any, Dict, List, Optional, Tuple
 from ..gen_state import Stream
 
 KOL, KOH, KIL = 0xF0, 0xF1, 0xF2
+IMR, ISR = 0xFB, 0xFC
+KEYI = 0x04
 BP, PX, PY = 0xEC, 0xED, 0xEE
 
 # PRE byte for (first operand mode, second operand mode) -- the architecture's prefix table
@@ -42,6 +44,7 @@ ST_REG = {1: ((0xA0, "A"), (0xA1, "IL")), 2: ((0xA2, "BA"), (0xA3, "I")),
 LD_REG = {1: ((0x80, "A"), (0x81, "IL")), 2: ((0x82, "BA"), (0x83, "I")),
           3: ((0x84, "X"), (0x85, "Y"), (0x86, "U"))}          # MV r,(n)
 MV_MM = {1: 0xC8, 2: 0xC9, 3: 0xCA}               # MV / MVW / MVP (m),(n)
+AND_IMM = 0x71                                     # AND (n),imm
 CODE_BASES = {"rs-cpu": (0x30000, 0x40100, 0x6FF00, 0xB8000),       # flat external memory of CoreRuntime::new()
               "py-cpu": (0xB8000, 0xB9010, 0xBC100, 0xBFE00)}       # the PC-E500's built-in RAM
 SCRATCH = (0x10, 0x24, 0x3D, 0x50, 0x68, 0x7C, 0x90)
@@ -150,6 +153,38 @@ def load(st: Stream, start: int, width: int, model: str = "rs-cpu") -> List[Any]
     pre_imem.update(_pre_imem(ptrs))
     meta = {"kind": "ld", "start": start, "width": width, "from": frm, "form": form}
     return ["x", code_addr, code, {}, pre_imem, out_regs, out_imem, meta]
+
+
+def rmw_and(st: Stream, target: int, mask: int, model: str = "py-cpu") -> List[Any]:
+    """`AND (target),mask`: a read-modify-write of one IMEM byte (how firmware acknowledges a status bit)."""
+    code_addr = st.choice(CODE_BASES[model]) + 16 * st.below(8)
+    ptrs = _ptrs(st)
+    mode, pre = st.choice(SINGLE)
+    n = _solve(mode, target, ptrs, st, False)
+    code = ([pre] if pre is not None else []) + [AND_IMM, n, mask & 0xFF]
+    meta = {"kind": "rmw", "start": target, "width": 1, "and": mask & 0xFF,
+            "form": f"and-imm/{mode}{'' if pre is not None else ' (no PRE)'}"}
+    return ["x", code_addr, code, {}, _pre_imem(ptrs), [], [], meta]
+
+
+def isr_ack(st: Stream, imr: int, model: str = "py-cpu") -> List[Any]:
+    """Firmware acknowledges the key interrupt without RETI: ISR bit 2 is cleared by a store instruction -- a byte
+    store to ISR, a 16-bit store at IMR that rewrites IMR (same value) and ISR together, an AND (ISR),~KEYI, or a
+    write from the host side of the bus.  Other status bits are never set by these writes."""
+    r = st.below(8)
+    if r < 3:
+        return store(st, ISR, 1, 0x00, model)
+    if r < 5:
+        return store(st, IMR, 2, imr & 0xFF, model)
+    if r < 7:
+        return rmw_and(st, ISR, 0xFF & ~KEYI, model)
+    return ["hw", ISR, "and", 0xFF & ~KEYI]
+
+
+def imr_write(st: Stream, value: int, model: str = "py-cpu") -> List[Any]:
+    if st.chance(1, 4):
+        return ["hw", IMR, "set", value & 0xFF]
+    return store(st, IMR, 1, value & 0xFF, model)
 
 
 def implied_strobes(meta: Dict[str, Any]) -> List[List[Any]]:
